@@ -974,6 +974,8 @@ class PhaseField(_IModel):
 
             # compute BetaP and BetaM [e,pg]
             BetaP = (valp[..., 0] - valp[..., 1]) / v1_m_v2
+            # repeated eigenvalue: the divided difference tends to the derivative of <.>+
+            BetaP = np.where(val_e_pg[..., 0] == val_e_pg[..., 1], dvalp[..., 0], BetaP)
             # BetaM = (valm[..., 0] - valm[..., 1]) / v1_m_v2
 
             # compute gammap and gammam
@@ -1029,6 +1031,14 @@ class PhaseField(_IModel):
             thetap[..., 0] = (valp[..., 0] - valp[..., 1]) / (2 * v1_m_v2)
             thetap[..., 1] = (valp[..., 0] - valp[..., 2]) / (2 * v1_m_v3)
             thetap[..., 2] = (valp[..., 1] - valp[..., 2]) / (2 * v2_m_v3)
+
+            # repeated eigenvalues: the divided difference tends to the derivative of <.>+
+            eq12 = val_e_pg[..., 0] == val_e_pg[..., 1]
+            eq13 = val_e_pg[..., 0] == val_e_pg[..., 2]
+            eq23 = val_e_pg[..., 1] == val_e_pg[..., 2]
+            thetap[..., 0] = np.where(eq12, dvalp[..., 0] / 2, thetap[..., 0])
+            thetap[..., 1] = np.where(eq13, dvalp[..., 0] / 2, thetap[..., 1])
+            thetap[..., 2] = np.where(eq23, dvalp[..., 1] / 2, thetap[..., 2])
 
             # [Remark M]
             # thetam[..., 0] = (valm[..., 0] - valm[..., 1]) / (2 * v1_m_v2)
